@@ -1,5 +1,5 @@
 //! C04.8 / C03.4 / C04.10 — the real StaticSound object on small symbolic audio (bounded).
-// @deps info,parameter
+// @deps info,parameter,playback_state_manager
 use super::*;
 use crate::kani_support::*;
 use crate::info::kani_proofs::empty_info;
@@ -216,6 +216,43 @@ fn c04_9a_commands_respect_the_slice() {
     assert!(s.transport.position == 1, "C04.9a: seek_to lands on the requested frame");
     s.on_start_processing();
     assert!(s.transport.position == 1, "C07.2c: the seek is not re-applied at the next callback");
+    kani::cover!(true);
+    core::mem::forget(s); core::mem::forget(h);
+}
+
+// @ob id=C07.2g strength=bounded tier=quick timeout=800 bound="single thread; 3 symbolic frames, sample rate 1; the sound Playing, Paused or WaitingToResume; all nine command kinds issued in one gap from Playing, the six that keep the state from the frozen states (zero-length tweens), one callback" axioms=EXP10 fn=sound/static_sound/sound.rs::StaticSound::{read_commands,on_start_processing}
+// @req a static sound in any of three states of its state machine; the handle issues one command of EVERY kind before the callback
+// @ens after the callback every command reader of the sound returns None: no command is left pending (so none can be applied late), whatever the playback state
+#[kani::proof]
+#[kani::unwind(8)]
+#[kani::stub(f32::powf, powf32_model)]
+fn c07_2g_static_sound_readers_are_drained() {
+    let src = any_frames3();
+    let (mut s, mut h) = build(src, StaticSoundSettings::new(), None);
+    let zt = Tween { start_time: StartTime::Immediate, duration: Duration::ZERO, easing: crate::Easing::Linear };
+    let which = kani::any::<u8>() % 3;
+    match which {
+        0 => {}
+        1 => s.playback_state_manager = crate::playback_state_manager::kani_proofs::paused_manager(),
+        _ => s.playback_state_manager = crate::playback_state_manager::kani_proofs::waiting_manager(StartTime::Delayed(Duration::from_secs(1))),
+    }
+    h.set_volume(Decibels(-6.0), zt);
+    h.set_playback_rate(crate::PlaybackRate(2.0), zt);
+    h.set_panning(Panning(0.5), zt);
+    h.set_loop_region(Region { start: PlaybackPosition::Samples(0), end: EndPosition::EndOfAudio });
+    // the state-changing commands only from Playing: in the frozen states the state must stay frozen while the other readers are drained
+    if which == 0 {
+        h.pause(zt);
+        h.resume(zt);
+        h.stop(zt);
+    }
+    h.seek_by(1.0);
+    h.seek_to(1.0);
+    s.on_start_processing();
+    assert!(s.command_readers.set_volume.read().is_none() && s.command_readers.set_playback_rate.read().is_none() && s.command_readers.set_panning.read().is_none(), "C07.2g: parameter command readers drained");
+    assert!(s.command_readers.set_loop_region.read().is_none(), "C07.2g: set_loop_region drained");
+    assert!(s.command_readers.pause.read().is_none() && s.command_readers.resume.read().is_none() && s.command_readers.stop.read().is_none(), "C07.2g: pause/resume/stop drained");
+    assert!(s.command_readers.seek_by.read().is_none() && s.command_readers.seek_to.read().is_none(), "C07.2g: seeks drained");
     kani::cover!(true);
     core::mem::forget(s); core::mem::forget(h);
 }
